@@ -163,6 +163,25 @@ static void case_fn(uint64_t idx, void *ctx)
               else if (!a) FAIL("spif_tok_new_from_fd", "model:return", shape, "new_from_fd returned NULL");
               if (a) spif_tok_del(a); if (b) spif_tok_del(b); } else close(pf[1]);
             close(pf[0]); } }
+        /* the same text as the first of two lines of a stdio stream: new_from_fp takes the next LINE of the stream, and the one after it with the next call */
+        if (di < 2) { char t2[64]; snprintf(t2, sizeof t2, "%s\nzz  yy\n", raw); int pf[2];
+          if (pipe(pf) == 0) { size_t tl = strlen(t2); FILE *fp = NULL; if (write(pf[1], t2, tl) == (ssize_t) tl) { close(pf[1]); fp = fdopen(pf[0], "r"); } else close(pf[1]);
+            if (fp) {
+              spif_tok_t a = spif_tok_new_from_fp(fp), b = spif_tok_new_from_ptr((spif_charptr_t) raw);
+              if (a && b) { if (d) { spif_tok_set_sep(a, spif_str_new_from_ptr((spif_charptr_t) hd)); spif_tok_set_sep(b, spif_str_new_from_ptr((spif_charptr_t) hd)); }
+                  spif_tok_eval(a); spif_tok_eval(b);
+                  spif_list_t la = spif_tok_get_tokens(a), lb = spif_tok_get_tokens(b); int na = la ? (int) SPIF_LIST_COUNT(la) : 0, nb = lb ? (int) SPIF_LIST_COUNT(lb) : 0, bad = na != nb;
+                  for (int i = 0; i < na && !bad; i++) { spif_str_t x = SPIF_STR(SPIF_LIST_GET(la, i)), y = SPIF_STR(SPIF_LIST_GET(lb, i)); if (strcmp(x && x->s ? (char *) x->s : "", y && y->s ? (char *) y->s : "")) bad = 1; }
+                  if (bad && !strchr(raw, '\n')) FAIL("spif_tok_new_from_fp", "model:tokens", shape, "the text as the first of two lines of a stream gives %d tokens, the same text given as a pointer %d, or they differ (delimiters %s)", na, nb, d ? d : "whitespace"); }
+              else if (!a) FAIL("spif_tok_new_from_fp", "model:return", shape, "new_from_fp returned NULL");
+              if (a) spif_tok_del(a); if (b) spif_tok_del(b);
+              if (!strchr(raw, '\n')) { spif_tok_t c2 = spif_tok_new_from_fp(fp);
+                  if (c2) { spif_tok_eval(c2); spif_list_t lc = spif_tok_get_tokens(c2); int nc = lc ? (int) SPIF_LIST_COUNT(lc) : 0; spif_str_t x0 = nc ? SPIF_STR(SPIF_LIST_GET(lc, 0)) : NULL;
+                      if (nc != 2 || !x0 || !x0->s || strcmp((char *) x0->s, "zz")) FAIL("spif_tok_new_from_fp", "model:tokens", shape, "a second tokenizer from the same stream holds %d tokens; the stream's next line is \"zz  yy\"", nc);
+                      spif_tok_del(c2); }
+                  else FAIL("spif_tok_new_from_fp", "model:return", shape, "the second new_from_fp on the stream returned NULL"); }
+              fclose(fp); }
+            else close(pf[0]); } }
         /* an evaluation that is refused (the source was taken away) leaves the tokenizer usable: what it reports as tokens can be walked, it can be given a source again */
         { spif_tok_t r = spif_tok_new_from_ptr((spif_charptr_t) s);
           if (d) spif_tok_set_sep(r, spif_str_new_from_ptr((spif_charptr_t) hd));
